@@ -1089,7 +1089,18 @@ def foreign_restore(seed, n=6, occupied=False):
                                      open(dest + b'.target', 'rb').read() if os.path.lexists(dest + b'.target') else None)
                 before = occ_state()
             args = (['--trash-dir', os.fsdecode(tdir)] if kind == 'c' else []) + ['/']
+            alias = None
+            if not occupied and rnd.random() < 0.3:
+                # a malformed neighbour (C19): an info file that is a symbolic link to this entry's own info file and has no
+                # payload.  It prints like the entry; the entry itself is still offered, under one of the two indices.
+                alias = tdir + b'/info/' + rnd.choice([b'0alias', b'zalias']) + b'.trashinfo'
+                try:
+                    os.symlink(slot + b'.trashinfo', alias)
+                except OSError:
+                    alias = None
             res = box.run('trash-restore', args, stdin=b'0\n')
+            if alias is not None and os.path.lexists(pay):
+                res = box.run('trash-restore', args, stdin=b'1\n')      # index 0 was the payload-less alias
             landed = None
             for dp, dn, fn in os.walk(rootb):
                 for x in fn:
